@@ -212,6 +212,9 @@ open Gen.Persistence
 inductive Tag where
   /-- eval-mode memo of a parameter-dependent computation: must be cleared by load, guarded on copy -/
   | cache
+  /-- tag of a cache (under which setting it was built): read only while that cache is populated, so it may be
+  dropped / be stale whenever the cache itself is dropped (`cacheTagOf` names the cache) -/
+  | cacheTag
   /-- written and consumed within one call / keyed by the inputs only: carries nothing across calls -/
   | scratch
   /-- set through a public setter / API by the user, never by train / eval / predict -/
@@ -259,6 +262,8 @@ def allowList : List Allowed := [
   ⟨cid_InducingPointKernel, aid__cached_kernel_mat, .cache, .customDeepcopy, "eval-mode K_uu"⟩,
   ⟨cid_InducingPointKernel, aid__cached_kernel_inv_root, .cache, .customDeepcopy, "eval-mode K_uu^{-1/2}"⟩,
   ⟨cid_ExactGP, aid_prediction_strategy, .cache, .valueDeepcopyNone, "eval-mode prediction caches"⟩,
+  ⟨cid_ExactGP, aid__strategy_lazily_evaluated, .cacheTag, .none,
+    "the lazily_evaluate_kernels setting under which prediction_strategy was built (C03 fix b06885c); only consulted as `prediction_strategy is None or tag != current`, rebuilt together with the strategy on the next prediction"⟩,
   -- scratch
   ⟨cid_UnwhitenedVariationalStrategy, aid__mean_cache, .scratch, .none,
     "written and read inside one forward call (skip_posterior_variances path), detached"⟩,
@@ -299,6 +304,9 @@ def allowList : List Allowed := [
 
 def rowOf (c : Nat) : Option ClassRow := classes.find? (·.id = c)
 
+/-- `(class, tag attribute, cache attribute)`: the cache each `cacheTag` entry belongs to -/
+def cacheTagOf : List (Nat × Nat × Nat) := [(cid_ExactGP, aid__strategy_lazily_evaluated, aid_prediction_strategy)]
+
 /-- **Every attribute assigned outside `__init__` in a Module class is in the audited allow-list.** -/
 theorem mutable_attrs_audited :
     ∀ c ∈ classes, ∀ a ∈ c.mutAttrs, (allowList.any fun e => e.cls == c.id && e.attr == a) = true := by
@@ -316,6 +324,15 @@ theorem caches_cleared_on_load :
     loadCallsClear = true ∧ loadDelegates = true ∧ trainCallsClear = true ∧
     ∀ e ∈ allowList, e.tag = .cache →
       ((rowOf e.cls).any fun r => r.gp && r.clears.contains e.attr) = true := by
+  decide +kernel
+
+/-- Every `cacheTag` entry names its cache, which is an audited `cache` entry of the same class (hence cleared on
+load and guarded on copy by the two theorems above): whenever the tag is not carried, the cache it describes is
+dropped too and both are rebuilt by the next prediction. -/
+theorem cache_tags_follow_cache :
+    ∀ e ∈ allowList, e.tag = .cacheTag →
+      (cacheTagOf.any fun t => t.1 == e.cls && t.2.1 == e.attr &&
+        allowList.any fun c => c.cls == e.cls && c.attr == t.2.2 && decide (c.tag = .cache)) = true := by
   decide +kernel
 
 /-- Cache holders recorded as known findings instead of being repaired (none at present): exempt from the guard
